@@ -4,8 +4,8 @@ CONSTANTS
   Families <- AllFamilies
   Wide = FALSE
   MaxSteps = 1
-  InDts <- InDtsS
-  InShapes <- InShapesS
+  InDts <- InDtsD
+  InShapes <- InShapesD
 INVARIANT PipelineOK
 INVARIANT EnvWellFormed
 CHECK_DEADLOCK FALSE
